@@ -125,13 +125,28 @@ U(id="ev.write.step", props=["C16"], **{"class": "proved"},
            {"name": "eagain-cancels", "file": "ev.c", "find": "                    if (errno == EAGAIN || errno == EWOULDBLOCK) break;\n                    janet_cancel(fiber, janet_ev_lasterr());\n                    janet_async_end(fiber);\n                    break;\n                }\n\n                /* Unless using datagrams", "replace": "                    janet_cancel(fiber, janet_ev_lasterr());\n                    janet_async_end(fiber);\n                    break;\n                }\n\n                /* Unless using datagrams", "expect": "EAGAIN"}])
 
 
-U(id="ev.read.step", props=["C16"], **{"class": "bounded"}, **READ_WIP, bound="at most 3 successful reads per readiness event (chunk mode loops while data keeps coming), no two EINTR in a row; every buffer size, request size, mode and state",
+U(id="ev.read.step", props=["C16"], **{"class": "bounded"}, defines=["-DRD_MAXCALLS=1"], cbmc=["--sat-solver", "cadical"], bound="at most 1 successful read per readiness event (the next call reports EAGAIN), no two EINTR in a row; every buffer size, request size, mode and state",
   clause="ev_callback_read, any request and state: each read/recv/recvfrom gets exactly the free range after the bytes already received and at most the outstanding count; count, bytes_read and bytes_left move by exactly the bytes delivered; a plain read resumes with the buffer at the first data, a chunked read only with all n bytes or at end of stream, end of stream before any byte resumes with nil, an error cancels, EAGAIN leaves the operation pending and untouched",
   harness=["ev_read.c"], entry="h_read", mode="plain", functions=["ev_callback_read"], nanbox=False, link=["wrap.c"],
   replace_calls=["read:read_stub", "recv:recv_stub", "recvfrom:recvfrom_stub", "__errno_location:errno_stub", "janet_buffer_extra:buffer_extra_stub",
                  "janet_schedule:schedule_stub", "janet_cancel:cancel_stub", "janet_async_end:async_end_stub", "janet_abstract:abstract_stub", "janet_ev_lasterr:lasterr_stub"],
   remove_bodies="janet_loop.*|janet_ev_.*|janet_thread_chan_cb",
-  checks=["bounds-check", "pointer-check", "signed-overflow-check", "conversion-check"], unwind=6, unwinding_assertions=True, timeout=600,
+  checks=["bounds-check", "pointer-check", "signed-overflow-check", "conversion-check"], unwind=4, unwinding_assertions=True, timeout=600,
+  only=r"^(ev_callback_read|h_read|kernel_delivers|[a-z_]+_stub)\.",
+  assumes=["read(2)/recv(2)/recvfrom(2): return -1 with any errno, or r in 0..n having delivered exactly r bytes into [buf, buf+r)",
+           "janet_buffer_extra makes room for n more bytes and keeps the contents (units seq.buffer.extra); janet_schedule/janet_cancel/janet_async_end are recorders"],
+  mutants=[{"name": "chunk-resumes-early", "file": "ev.c", "find": "            if (!state->is_chunk || bytes_left == 0 || nread == 0) {\n                Janet resume_val;\n#ifdef JANET_NET\n                if (state->mode == JANET_ASYNC_READMODE_RECVFROM) {\n                    void *abst = janet_abstract(&janet_address_type, socklen);", "replace": "            if (!state->is_chunk || bytes_left <= 1 || nread == 0) {\n                Janet resume_val;\n#ifdef JANET_NET\n                if (state->mode == JANET_ASYNC_READMODE_RECVFROM) {\n                    void *abst = janet_abstract(&janet_address_type, socklen);", "expect": "exactly the requested count"},
+           {"name": "reads-over-old-bytes", "file": "ev.c", "find": "                    nread = read(stream->handle, buffer->data + buffer->count, read_limit);", "replace": "                    nread = read(stream->handle, buffer->data, read_limit);", "expect": "directly after"},
+           {"name": "count-not-advanced", "file": "ev.c", "find": "            buffer->count += nread;\n            bytes_left -= nread;", "replace": "            bytes_left -= nread;", "expect": "grew by exactly|directly after"},
+           {"name": "eos-resumes-with-buffer", "file": "ev.c", "find": "            if (state->bytes_read == 0 && (state->mode != JANET_ASYNC_READMODE_RECVFROM)) {\n                janet_schedule(fiber, janet_wrap_nil());\n                janet_async_end(fiber);\n                break;\n            }", "replace": "", "expect": "nil"}])
+
+U(id="ev.read.step.loop", tier="thorough", props=["C16"], **{"class": "bounded"}, cbmc=["--sat-solver", "cadical"], bound="at most 3 successful reads per readiness event (chunk mode loops while data keeps coming), no two EINTR in a row; every buffer size, request size, mode and state",
+  clause="ev_callback_read, any request and state: each read/recv/recvfrom gets exactly the free range after the bytes already received and at most the outstanding count; count, bytes_read and bytes_left move by exactly the bytes delivered; a plain read resumes with the buffer at the first data, a chunked read only with all n bytes or at end of stream, end of stream before any byte resumes with nil, an error cancels, EAGAIN leaves the operation pending and untouched",
+  harness=["ev_read.c"], entry="h_read", mode="plain", functions=["ev_callback_read"], nanbox=False, link=["wrap.c"],
+  replace_calls=["read:read_stub", "recv:recv_stub", "recvfrom:recvfrom_stub", "__errno_location:errno_stub", "janet_buffer_extra:buffer_extra_stub",
+                 "janet_schedule:schedule_stub", "janet_cancel:cancel_stub", "janet_async_end:async_end_stub", "janet_abstract:abstract_stub", "janet_ev_lasterr:lasterr_stub"],
+  remove_bodies="janet_loop.*|janet_ev_.*|janet_thread_chan_cb",
+  checks=["bounds-check", "pointer-check", "signed-overflow-check", "conversion-check"], unwind=6, unwinding_assertions=True, timeout=1500,
   only=r"^(ev_callback_read|h_read|kernel_delivers|[a-z_]+_stub)\.",
   assumes=["read(2)/recv(2)/recvfrom(2): return -1 with any errno, or r in 0..n having delivered exactly r bytes into [buf, buf+r)",
            "janet_buffer_extra makes room for n more bytes and keeps the contents (units seq.buffer.extra); janet_schedule/janet_cancel/janet_async_end are recorders"],
